@@ -166,6 +166,8 @@ func c08Bads() []CfgLit {
 		{Origins: []string{"https://d.example", "*"}, PNANoCORS: true, TolInsecure: true, TolPSL: true},
 		{Origins: []string{"*", "https://d.example"}, Credentialed: true, TolInsecure: true, TolPSL: true, RequestHeaders: []string{"X-D"}},
 		{Origins: []string{"https://d.example"}, Credentialed: true, TolInsecure: true, TolPSL: true, ResponseHeaders: []string{"X-U", "*"}},
+		{Origins: []string{"https://d.example"}, Credentialed: true, ResponseHeaders: []string{"$Trace-Id", "*"}},
+		{Origins: []string{"https://d.example"}, Credentialed: true, ResponseHeaders: []string{"*", "!x", "X-U"}, Methods: []string{"*", "!m"}, RequestHeaders: []string{"#h", "*"}},
 		{Origins: []string{"https://*.com."}, TolInsecure: true, Methods: []string{"QUERY"}},
 		{Origins: []string{"http://*.example.co.uk:*"}, PNA: true, TolPSL: true},
 		{Origins: []string{"null", "*", "http://d.example"}, Credentialed: true, PNA: true, PNANoCORS: true, Methods: []string{"TRACE", ""}, RequestHeaders: []string{"Host", "é"}, ResponseHeaders: []string{"*", "Origin"}, MaxAge: -5, Status: 404},
